@@ -3,6 +3,7 @@ import OrbitModel.Proofs.LoadNoPanic
 import OrbitModel.Proofs.LoadChain
 import OrbitModel.Proofs.LoadExamples
 import OrbitModel.Proofs.GenEqLoad
+import OrbitModel.Proofs.LoadRejoin
 /-!
 # C15 — `Load(n)` shows the newest `min(n, total)` entries, in order; `n ≤ 0` loads all; never panics
 
@@ -60,6 +61,17 @@ once the listing is known to be longer than the amount). The statement used to n
 theorem load_one_head_never_panics (acl : Acl) (fetch : Nat → OMap) (amount : Int) (L : Log) (h : Nat) :
     loadHead acl fetch amount L h ≠ .error .panic :=
   loadHead_never_panics acl fetch amount L h
+
+/-- the model writes `Load`'s second `Join(l, amount)` as a trim; written out exactly (`loadHeadExact`:
+`Join` called twice) it lists the same entries and never panics, for every log that satisfies the
+log invariant (every log reachable by appends and honest joins) and every fetched log -/
+theorem the_second_join_of_load_is_a_trim {U : List Entry} (hU : HashDet U) (hT : TieFree U) (hM : ClockMono U)
+    (acl : Acl) (fetch : Nat → OMap) (amount : Int) {L : Log} (h : Nat) (hG : Good U L)
+    (hF : Fetched U L (fetch h)) :
+    loadHeadExact acl fetch amount L h ≠ .error .panic ∧
+    ∀ r, loadHeadExact acl fetch amount L h = .ok r →
+      ∃ r', loadHead acl fetch amount L h = .ok r' ∧ values r = values r' :=
+  loadHeadExact_is_loadHead hU hT hM acl fetch amount h hG hF
 
 /-- Refutation witness for the tree before that repair: a store that holds `c3` without its parents
 (a log with a hole) and is asked to `Load(3)` estimated 4 merged entries, asked `Join` to keep 3, and
